@@ -136,6 +136,7 @@ Definition explore_fuel : nat := 200 * 200.
 
 (* ---- cases ------------------------------------------------------------------------------ *)
 Record case := mk_case {
+  c_guard : bool;         (* which variant of the code ran: false = prepare_stmt.go as it is *)
   c_progs : list (list op);
   c_trace : list vev;
   o_hang : bool;          (* some goroutine did not finish within the time limit *)
@@ -146,7 +147,7 @@ Record case := mk_case {
 
 Definition model_agrees (c : case) : bool :=
   negb (o_hang c) && (o_wrongrows c =? 0) &&
-  match follow explore_fuel (c_trace c) [init (c_progs c)] with
+  match follow explore_fuel (c_trace c) [init_g (c_guard c) (c_progs c)] with
   | Some fin => existsb (fun s => all_done s && (length (leaked s) =? o_leaked c)) fin
   | None => false
   end.
